@@ -124,10 +124,82 @@ static void *cpusim_resolve(struct cpusim_entry *e, const cpucfg *c)
 {
 	cpusim_cur = *c; *e->slot = e->mbinit; cpusim_run_traced(e->resolver); return *e->slot;
 }
+/* ---- interposer: after the resolvers have chosen, every dispatch slot is pointed at a thunk that (1) loads garbage into all vector and
+ * mask registers (caller-saved, no API passes vector arguments), (2) remembers rbx, rbp, r12-r15 and the return address on a shadow stack,
+ * (3) runs the chosen implementation and (4) verifies the callee-saved registers when it returns.  This extends register poisoning and the
+ * callee-saved monitor to the kernels the library reaches only internally (deflate body / icf / finish kernels, decode kernels, hash, CRC
+ * and Adler inside the codec), under every simulated CPU level.  The stack is left exactly as the callee expects it (the return address
+ * is replaced, not stacked).  Off when an engine sets cpusim_no_interpose (tracer, threads). */
+static int cpusim_no_interpose, cpusim_interposed; static long cpusim_thunk_installs;
+struct cpusim_ctx { void *target; const char *name; };
+static struct cpusim_ctx cpusim_ctxs[128];
+uint8_t *cpusim_shadow_sp __attribute__((used)); static uint8_t *cpusim_shadow_base;
+void *volatile cpusim_abi_bad_ctx __attribute__((used)); volatile long cpusim_thunk_calls __attribute__((used));
+void (*cpusim_vecpoison)(void) __attribute__((used));
+void cpusim_vp_none(void); void cpusim_vp_sse(void); void cpusim_vp_avx(void); void cpusim_vp_avx512(void); void cpusim_thunk_common(void);
+__asm__(".text\n"
+	".globl cpusim_vp_none\n.type cpusim_vp_none,@function\ncpusim_vp_none:\n\tret\n"
+	".globl cpusim_vp_sse\n.type cpusim_vp_sse,@function\ncpusim_vp_sse:\n\tlea v_poison_buf(%rip),%r10\n"
+	"\tmovdqu 16(%r10),%xmm0\n\tmovdqu 80(%r10),%xmm1\n\tmovdqu 144(%r10),%xmm2\n\tmovdqu 208(%r10),%xmm3\n\tmovdqu 272(%r10),%xmm4\n\tmovdqu 336(%r10),%xmm5\n\tmovdqu 400(%r10),%xmm6\n\tmovdqu 464(%r10),%xmm7\n"
+	"\tmovdqu 528(%r10),%xmm8\n\tmovdqu 592(%r10),%xmm9\n\tmovdqu 656(%r10),%xmm10\n\tmovdqu 720(%r10),%xmm11\n\tmovdqu 784(%r10),%xmm12\n\tmovdqu 848(%r10),%xmm13\n\tmovdqu 912(%r10),%xmm14\n\tmovdqu 976(%r10),%xmm15\n\tret\n"
+	".globl cpusim_vp_avx\n.type cpusim_vp_avx,@function\ncpusim_vp_avx:\n\tlea v_poison_buf(%rip),%r10\n"
+	"\tvmovdqu 16(%r10),%ymm0\n\tvmovdqu 80(%r10),%ymm1\n\tvmovdqu 144(%r10),%ymm2\n\tvmovdqu 208(%r10),%ymm3\n\tvmovdqu 272(%r10),%ymm4\n\tvmovdqu 336(%r10),%ymm5\n\tvmovdqu 400(%r10),%ymm6\n\tvmovdqu 464(%r10),%ymm7\n"
+	"\tvmovdqu 528(%r10),%ymm8\n\tvmovdqu 592(%r10),%ymm9\n\tvmovdqu 656(%r10),%ymm10\n\tvmovdqu 720(%r10),%ymm11\n\tvmovdqu 784(%r10),%ymm12\n\tvmovdqu 848(%r10),%ymm13\n\tvmovdqu 912(%r10),%ymm14\n\tvmovdqu 976(%r10),%ymm15\n\tret\n"
+	".globl cpusim_vp_avx512\n.type cpusim_vp_avx512,@function\ncpusim_vp_avx512:\n\tlea v_poison_buf(%rip),%r10\n"
+	"\tvmovdqu64 8(%r10),%zmm0\n\tvmovdqu64 72(%r10),%zmm1\n\tvmovdqu64 136(%r10),%zmm2\n\tvmovdqu64 200(%r10),%zmm3\n\tvmovdqu64 264(%r10),%zmm4\n\tvmovdqu64 328(%r10),%zmm5\n\tvmovdqu64 392(%r10),%zmm6\n\tvmovdqu64 456(%r10),%zmm7\n"
+	"\tvmovdqu64 520(%r10),%zmm8\n\tvmovdqu64 584(%r10),%zmm9\n\tvmovdqu64 648(%r10),%zmm10\n\tvmovdqu64 712(%r10),%zmm11\n\tvmovdqu64 776(%r10),%zmm12\n\tvmovdqu64 840(%r10),%zmm13\n\tvmovdqu64 904(%r10),%zmm14\n\tvmovdqu64 968(%r10),%zmm15\n"
+	"\tvmovdqu64 1032(%r10),%zmm16\n\tvmovdqu64 1096(%r10),%zmm17\n\tvmovdqu64 1160(%r10),%zmm18\n\tvmovdqu64 1224(%r10),%zmm19\n\tvmovdqu64 1288(%r10),%zmm20\n\tvmovdqu64 1352(%r10),%zmm21\n\tvmovdqu64 1416(%r10),%zmm22\n\tvmovdqu64 1480(%r10),%zmm23\n"
+	"\tvmovdqu64 1544(%r10),%zmm24\n\tvmovdqu64 1608(%r10),%zmm25\n\tvmovdqu64 1672(%r10),%zmm26\n\tvmovdqu64 1736(%r10),%zmm27\n\tvmovdqu64 1800(%r10),%zmm28\n\tvmovdqu64 1864(%r10),%zmm29\n\tvmovdqu64 1928(%r10),%zmm30\n\tvmovdqu64 1992(%r10),%zmm31\n"
+	"\tkmovq 2056(%r10),%k1\n\tkmovq 2064(%r10),%k2\n\tkmovq 2072(%r10),%k3\n\tkmovq 2080(%r10),%k4\n\tkmovq 2088(%r10),%k5\n\tkmovq 2096(%r10),%k6\n\tkmovq 2048(%r10),%k7\n\tret\n"
+	".globl cpusim_thunk_common\n.type cpusim_thunk_common,@function\ncpusim_thunk_common:\n"          /* r11 = struct cpusim_ctx * */
+	"\tmov cpusim_shadow_sp(%rip),%r10\n\tpopq (%r10)\n\tincq cpusim_thunk_calls(%rip)\n"
+	"\tmov %rbx,8(%r10)\n\tmov %rbp,16(%r10)\n\tmov %r12,24(%r10)\n\tmov %r13,32(%r10)\n\tmov %r14,40(%r10)\n\tmov %r15,48(%r10)\n\tmov %r11,56(%r10)\n"
+	"\tadd $64,%r10\n\tmov %r10,cpusim_shadow_sp(%rip)\n"
+	"\tcall *cpusim_vecpoison(%rip)\n"
+	"\tlea 1f(%rip),%r10\n\tpush %r10\n\tjmp *(%r11)\n"
+	"1:\tmov cpusim_shadow_sp(%rip),%r10\n\tsub $64,%r10\n\tmov %r10,cpusim_shadow_sp(%rip)\n"
+	"\tmov 8(%r10),%rcx\n\txor %rbx,%rcx\n\tmov 16(%r10),%rsi\n\txor %rbp,%rsi\n\tor %rsi,%rcx\n\tmov 24(%r10),%rsi\n\txor %r12,%rsi\n\tor %rsi,%rcx\n"
+	"\tmov 32(%r10),%rsi\n\txor %r13,%rsi\n\tor %rsi,%rcx\n\tmov 40(%r10),%rsi\n\txor %r14,%rsi\n\tor %rsi,%rcx\n\tmov 48(%r10),%rsi\n\txor %r15,%rsi\n\tor %rsi,%rcx\n"
+	"\tjz 2f\n\tmov 56(%r10),%r11\n\tmov %r11,cpusim_abi_bad_ctx(%rip)\n2:\tjmp *(%r10)\n");
+static void cpusim_hook_try(void) { cpusim_shadow_sp = cpusim_shadow_base; }
+static void cpusim_hook_end(void)
+{
+	if (cpusim_abi_bad_ctx) { struct cpusim_ctx *c = (struct cpusim_ctx *) cpusim_abi_bad_ctx; cpusim_abi_bad_ctx = 0; char key[200]; snprintf(key, sizeof key, "abi:callee-saved-register-clobbered:%s", c->name); v_viol(key, "the implementation selected for %s (%s) returned with rbx, rbp or r12-r15 changed", c->name, v_symof(c->target, 0) ? v_symof(c->target, 0) : "?"); }
+	if (cpusim_shadow_base && cpusim_shadow_sp != cpusim_shadow_base) { cpusim_shadow_sp = cpusim_shadow_base; }
+}
+static void cpusim_hook_stats(void) { v_stat("dispatched_calls_through_the_interposer", cpusim_thunk_calls); v_stat("monitored_calls_with_poisoned_registers", v_poison_calls); }
+static void cpusim_interpose(void)
+{
+	static uint8_t *stubs;
+	if (cpusim_no_interpose || getenv("VERIF_NO_INTERPOSE")) return;
+	if (!stubs) {
+		stubs = mmap(0, 8192, PROT_READ | PROT_WRITE | PROT_EXEC, MAP_PRIVATE | MAP_ANONYMOUS, -1, 0); if (stubs == MAP_FAILED) v_harness_fail("cpusim: no executable page for the slot thunks");
+		cpusim_shadow_base = mmap(0, 1 << 16, PROT_READ | PROT_WRITE, MAP_PRIVATE | MAP_ANONYMOUS, -1, 0); if (cpusim_shadow_base == MAP_FAILED) v_harness_fail("cpusim: shadow stack"); cpusim_shadow_sp = cpusim_shadow_base;
+		v_poison_regs();   /* decides the poison flavour this machine executes */
+		cpusim_vecpoison = v_poison_level == 2 ? cpusim_vp_avx512 : v_poison_level == 1 ? cpusim_vp_avx : v_poison_level == 0 ? cpusim_vp_sse : cpusim_vp_none;
+	}
+	#define CPUSIM_MKSTUB(i) do { uint8_t *t_ = stubs + 32 * (i), *q_ = t_; void *ctx_ = &cpusim_ctxs[i], *com_ = (void *) cpusim_thunk_common; memcpy(q_, "\xf3\x0f\x1e\xfa", 4); q_ += 4; memcpy(q_, "\x49\xbb", 2); memcpy(q_ + 2, &ctx_, 8); q_ += 10; memcpy(q_, "\x49\xba", 2); memcpy(q_ + 2, &com_, 8); q_ += 10; memcpy(q_, "\x41\xff\xe2", 3); } while (0)
+	{ static int tested; if (!tested) { tested = 1;   /* monitor self-test: a routine that swaps r12/r13 must be flagged, one that preserves them must not */
+		cpusim_ctxs[127].target = (void *) v_abi_selftest_ok; cpusim_ctxs[127].name = "selftest"; CPUSIM_MKSTUB(127); long c0 = cpusim_thunk_calls; V_ABI(stubs + 32 * 127, 1, 2, 3);
+		if (cpusim_abi_bad_ctx || cpusim_thunk_calls != c0 + 1 || cpusim_shadow_sp != cpusim_shadow_base) v_harness_fail("cpusim: slot thunk self-test (clean routine) failed");
+		cpusim_ctxs[127].target = (void *) v_abi_selftest_swap; V_ABI(stubs + 32 * 127, 1, 2, 3); v_abi_bad = 0;   /* through the trampoline, so that this function's own registers survive */
+		if (cpusim_abi_bad_ctx != &cpusim_ctxs[127]) v_harness_fail("cpusim: slot thunk does not flag a routine that swaps r12 and r13"); cpusim_abi_bad_ctx = 0; } }
+	int i = 0;
+	for (struct cpusim_entry *e = cpusim_ent; e->name; e++, i++) {
+		if (i >= 127) v_harness_fail("cpusim: more than 128 dispatched entry points");
+		cpusim_ctxs[i].target = *e->slot; cpusim_ctxs[i].name = e->name;
+		CPUSIM_MKSTUB(i); uint8_t *t = stubs + 32 * i;
+		*e->slot = t; cpusim_thunk_installs++;
+	}
+	cpusim_interposed = 1; v_hook_try = cpusim_hook_try; v_hook_end = cpusim_hook_end; v_hook_stats = cpusim_hook_stats;
+}
+/* what the slot of entry e really resolves to (the thunk hides it) */
+static void *cpusim_target(struct cpusim_entry *e) { if (cpusim_interposed) { long i = e - cpusim_ent; return cpusim_ctxs[i].target; } return *e->slot; }
 static void cpusim_apply(const cpucfg *c)
 {
 	cpusim_init();
 	for (struct cpusim_entry *e = cpusim_ent; e->name; e++) cpusim_resolve(e, c);
+	cpusim_interpose();
 }
 static const char *cpusim_symname(void *p)
 {
@@ -139,6 +211,6 @@ static const cpucfg *cpusim_find(const char *name) { for (int i = 0; i < CPUSIM_
 /* report what every slot holds (evidence: which implementation symbols ran) */
 static void cpusim_report(const char *level)
 {
-	for (struct cpusim_entry *e = cpusim_ent; e->name; e++) { char b[200]; snprintf(b, sizeof b, "%s@%s=%s", e->name, level, cpusim_symname(*e->slot)); v_set("slots", b); }
+	for (struct cpusim_entry *e = cpusim_ent; e->name; e++) { char b[200]; snprintf(b, sizeof b, "%s@%s=%s", e->name, level, cpusim_symname(cpusim_target(e))); v_set("slots", b); }
 }
 #endif
